@@ -410,7 +410,7 @@ class StyleProperties:
     def from_model(cls, xml_element, model_value):
       xml_element.set(
         f"{{{cls.ns}}}{cls.local_name}",
-        f"{model_value}"
+        StyleProperties.to_ttml_number(model_value)
       )
 
 
@@ -443,7 +443,7 @@ class StyleProperties:
 
     @classmethod
     def from_model(cls, xml_element, model_value):
-      xml_element.set(f"{{{cls.ns}}}{cls.local_name}", f"{model_value}")
+      xml_element.set(f"{{{cls.ns}}}{cls.local_name}", StyleProperties.to_ttml_number(model_value))
 
 
   class Origin(StyleProperty):
@@ -485,7 +485,7 @@ class StyleProperties:
     def from_model(cls, xml_element, model_value):
       xml_element.set(
         f"{{{cls.ns}}}{cls.local_name}", 
-        f"{model_value.x.value:g}{model_value.x.units.value} {model_value.y.value:g}{model_value.y.units.value}"
+        f"{StyleProperties.to_ttml_length(model_value.x)} {StyleProperties.to_ttml_length(model_value.y)}"
       )
 
 
@@ -591,9 +591,9 @@ class StyleProperties:
       xml_element.set(
         f"{{{cls.ns}}}{cls.local_name}", 
         f"{model_value.h_edge.value} " \
-        f"{model_value.h_offset.value:g}{model_value.h_offset.units.value} " \
+        f"{StyleProperties.to_ttml_length(model_value.h_offset)} " \
         f"{model_value.v_edge.value} " \
-        f"{model_value.v_offset.value:g}{model_value.v_offset.units.value}"
+        f"{StyleProperties.to_ttml_length(model_value.v_offset)}"
       )
 
 
@@ -696,7 +696,7 @@ class StyleProperties:
 
     @classmethod
     def from_model(cls, xml_element, model_value: float):
-      xml_element.set(f"{{{cls.ns}}}{cls.local_name}", f"{model_value}%")
+      xml_element.set(f"{{{cls.ns}}}{cls.local_name}", f"{StyleProperties.to_ttml_number(model_value)}%")
 
 
   class ShowBackground(StyleProperty):
@@ -1179,5 +1179,18 @@ class StyleProperties:
     return color_str
 
   @staticmethod
+  def to_ttml_number(value, fmt: str = "") -> str:
+    '''Serializes a number in decimal notation: TTML does not allow an exponent or a fraction bar'''
+    if isinstance(value, int):
+      return str(value)
+
+    number_str = format(float(value), fmt)
+
+    if "e" in number_str or "E" in number_str:
+      number_str = f"{float(value):.15f}".rstrip("0").rstrip(".")
+
+    return number_str
+
+  @staticmethod
   def to_ttml_length(model_value: styles.LengthType):
-    return f"{model_value.value:g}{model_value.units.value}"
+    return f"{StyleProperties.to_ttml_number(model_value.value, 'g')}{model_value.units.value}"
